@@ -169,3 +169,26 @@ package common
 //@   ensures [big] p.count == 65535 && rawslice(p, 16, "common.Pgid")[0] != 0 ==> israw(result) && offof(result) == offof(rawslice(p, 16, "common.Pgid")) + 1 && len(result) == rawslice(p, 16, "common.Pgid")[0]
 //@   ensures [empty] p.count == 0 || (p.count == 65535 && rawslice(p, 16, "common.Pgid")[0] == 0) ==> result == nil
 //@   modifies nothing
+
+// ---------------------------------------------------------------- reading a page into inodes (C12: the reader side of the element layout)
+//@ uninterp func lvalof(n *leafPageElement) string
+
+//@ func (*leafPageElement).Value
+//@   trusted
+//@   props C12
+//@   ensures bytesval(result) == lvalof(n)
+//@   modifies nothing
+
+// ReadInodeFromPage: one inode per page element, in order; a leaf element yields its flags, key and value, a branch
+// element its child page id and key; nothing else is consulted.
+//@ func ReadInodeFromPage
+//@   props C12 C04
+//@   requires p != nil
+//@   requires forall i int :: 0 <= i && i < p.count ==> (p.flags == LeafPageFlag ? len(lkeyof(lfelem(p, i))) > 0 : len(bkeyof(brelem(p, i))) > 0)     -- every stored key is non-empty (the function asserts it; a page with an empty key is corrupt)
+//@   ensures [count] len(result) == p.count
+//@   ensures [leaf] p.flags == LeafPageFlag ==> (forall i int :: 0 <= i && i < p.count ==> result[i].flags == lfelem(p, i).flags && bytesval(result[i].key) == lkeyof(lfelem(p, i)) && bytesval(result[i].value) == lvalof(lfelem(p, i)))
+//@   ensures [branch] p.flags != LeafPageFlag ==> (forall i int :: 0 <= i && i < p.count ==> result[i].pgid == brelem(p, i).pgid && bytesval(result[i].key) == bkeyof(brelem(p, i)))
+//@   ensures [fresh] fresh(arrayof(result)) || p.count == 0
+//@   loop 0 invariant [i] 0 <= i && i <= p.count && len(inodes) == p.count && fresh(arrayof(inodes)) && p.count == old(p.count) && p.flags == old(p.flags) && isLeaf == (p.flags == LeafPageFlag)
+//@   loop 0 invariant [leaf] isLeaf ==> (forall j int :: 0 <= j && j < i ==> inodes[j].flags == lfelem(p, j).flags && bytesval(inodes[j].key) == lkeyof(lfelem(p, j)) && bytesval(inodes[j].value) == lvalof(lfelem(p, j)))
+//@   loop 0 invariant [branch] !isLeaf ==> (forall j int :: 0 <= j && j < i ==> inodes[j].pgid == brelem(p, j).pgid && bytesval(inodes[j].key) == bkeyof(brelem(p, j)))
